@@ -17,7 +17,6 @@ import (
 	"sync"
 	"sync/atomic"
 	"testing"
-	"time"
 
 	"github.com/tikv/client-go/v2/internal/latch"
 	"github.com/tikv/client-go/v2/verif/ev"
@@ -479,7 +478,7 @@ func TestSampled(t *testing.T) {
 			c.Keys = append(c.Keys, s)
 			c.Commits = append(c.Commits, rapid.IntRange(0, 4).Draw(t, "commits") != 0)
 		}
-		ranks := rapid.Permutation(seq(2 * n)).Draw(t, "tsorder")
+		ranks := rapid.Permutation(seq(2*n)).Draw(t, "tsorder")
 		c.Start, c.Commit = make([]uint64, n), make([]uint64, n)
 		for i := 0; i < n; i++ {
 			a, b := uint64(ranks[2*i]+1), uint64(ranks[2*i+1]+1)
@@ -563,11 +562,9 @@ func stressRound(seed int64, nG, nKeys int, slots uint, perG, maxK int) error {
 				}
 				done := make(chan *latch.Lock, 1)
 				go func() { done <- s.Lock(start, keys) }()
-				var l *latch.Lock
-				select {
-				case l = <-done:
-				case <-time.After(20 * time.Second):
-					errCh <- fmt.Errorf("Lock(start=%d keys=%q) did not return within 20 s although all holders unlock: lost wake-up or deadlock", start, keys)
+				l, ok := ev.Await(done, 600)
+				if !ok {
+					errCh <- fmt.Errorf("Lock(start=%d keys=%q) did not return within 60 s although all holders unlock: lost wake-up or deadlock", start, keys)
 					return
 				}
 				if l.IsStale() {
